@@ -64,9 +64,23 @@ decreasing_by
   · apply Prod.Lex.right
     simp
 
+/-- the same traversal with an explicit step budget (structural recursion, so that the kernel can evaluate it) -/
+def closureF (objs : List Obj) : Nat → (unvisited : List Nat) → (todo : List Nat) → (acc : List Nat) → List Nat
+  | 0, _, _, acc => acc
+  | _ + 1, _, [], acc => acc
+  | f + 1, unv, a :: rest, acc =>
+    if a ∈ unv then closureF objs f (unv.erase a) (depsOf objs a ++ rest) (a :: acc)
+    else closureF objs f unv rest acc
+
+/-- a budget that always suffices: every step either pops the work list or visits a new object,
+which pushes its dependency list -/
+def budget (objs : List Obj) (unv todo : List Nat) : Nat :=
+  todo.length + (unv.map (fun a => 1 + (depsOf objs a).length)).sum
+
 /-- the objects whose caches an item assignment to `o` drops -/
 def clearSet (fl : Flags) (s : State) (o : Nat) : List Nat :=
-  if fl.transitive then closure s.objs (List.range s.objs.length) [o] []
+  if fl.transitive then
+    closureF s.objs (budget s.objs (List.range s.objs.length) [o]) (List.range s.objs.length) [o] []
   else o :: depsOf s.objs o
 
 def clearCaches (objs : List Obj) (ids : List Nat) : List Obj :=
